@@ -83,41 +83,82 @@ def digit_statements(v, f):
     return digits, touch, None
 
 
-def unify_digits(digits, N, R):
-    """Several digit statements (an unrolled coefficient loop and its remainder) as one: each statement is re-parameterised
-    by the coefficient position it writes; all must then be the same map position -> digit, and together their loops must
-    visit every position of [0, N) exactly once (index-coverage decision).  -> (statement, coverage verdict, detail);
-    raises LookupError when the statements are not comparable."""
+def unify_digits(digits, N, R, L=None):
+    """Several digit statements (an unrolled coefficient loop and its remainder, a first level peeled into another pass) as
+    one.  Each statement is re-parameterised by the (level p, coefficient position j) it writes; all must then be the same
+    map (p, j) -> digit (a statement for one fixed level is compared with the general map at that level); the statements of
+    one level group must visit every position of [0, N) exactly once and the groups every level of [0, l) exactly once
+    (index-coverage decisions).  -> (statement, coverage verdict, detail); LookupError when not comparable."""
     from sa import coverage, pam
-    if len(digits) == 1:
+    if len(digits) == 1 and len(digits[0]["loops"]) == 2:
         return digits[0], "single", ""
-    J = sym.sym("j*")
-    unified, terms, pl0 = [], [], None
+    J, Pv = sym.sym("j*"), sym.sym("p*")
+    groups = {}
     for d in digits:
-        if len(d["loops"]) != 2 or d["lv"][0] != "idx":
+        lv = d["lv"]
+        if not (lv[0] == "idx" and lv[1][0] == "fld" and lv[1][2] == "coefs" and lv[1][1][0] == "idx"):
+            raise LookupError("digit statement at line %s writes %s, not result[p].coefs[j]" % (d["line"], sym.show(lv)[:60]))
+        pe, je = lv[1][1][2], lv[2]
+        jl = next((lp for lp in reversed(d["loops"]) if "var" in lp and sym.contains(je, lp["var"])), None)
+        pl = next((lp for lp in d["loops"] if "var" in lp and lp is not jl and sym.contains(pe, lp["var"])), None)
+        if jl is None or len(d["loops"]) != (2 if pl is not None else 1):
             raise LookupError("digit statement at line %s is not in a (p, j) nest" % d["line"])
-        pl, jl = d["loops"]
-        if pl0 is None:
-            pl0 = pl
-        elif pl is not pl0 and (pl["lo"], pl["cmp"], pl["hi"], pl["step"]) != (pl0["lo"], pl0["cmp"], pl0["hi"], pl0["step"]):
-            raise LookupError("digit statements run under different digit loops")
-        piece = {"loops": list(d["loops"]), "lv": d["lv"], "val": d["val"], "guards": [], "op": "=", "line": d["line"]}
-        q = pam.normalise_dest(piece, d["lv"][1])
+        if pl is not None and pe != pl["var"]:
+            raise LookupError("digit statement at line %s writes level %s" % (d["line"], sym.show(pe)))
+        if pl is None and sym.const_value(pe) is None:
+            raise LookupError("digit statement at line %s writes level %s outside a level loop" % (d["line"], sym.show(pe)))
+        piece = {"loops": [jl], "lv": lv, "val": d["val"], "guards": [], "op": "=", "line": d["line"]}
+        q = pam.normalise_dest(piece, lv[1])
         jq = q["loops"][-1]["var"]
-        ren = {jq: J, pl["var"]: pl0["var"]}
         if q["lv"][2] != jq:
-            raise LookupError("digit statement at line %s writes position %s, not a coefficient position of its loop" % (d["line"], sym.show(d["lv"][2])))
-        unified.append((sym.subst(q["lv"], ren), sym.subst(q["val"], ren)))
-        terms.append((dict(jl, lo=R(jl["lo"]), hi=R(jl["hi"])), d["lv"][2], 1))
-    if len(set(unified)) != 1:
-        raise LookupError("the %d digit statements compute different maps: %s" % (len(digits), sorted({sym.show(u[1])[:80] for u in unified})[:2]))
-    status, detail = coverage.cover_1d(terms, N)
-    if status == "unknown":
-        raise LookupError(detail)
-    lv, val = unified[0]
-    one = {"loops": [pl0, {"var": J, "lo": ZERO, "cmp": "<", "hi": N, "step": I(1), "l": digits[0]["line"], "name": "j"}],
-           "lv": lv, "val": val, "line": digits[0]["line"], "via": digits[0]["via"], "statements": len(digits)}
-    return one, status, detail
+            raise LookupError("digit statement at line %s writes position %s, not a coefficient position of its loop" % (d["line"], sym.show(je)))
+        ren = {jq: J}
+        if pl is not None:
+            ren[pl["var"]] = Pv
+        gkey = ("loop", R(pl["lo"]), pl["cmp"], R(pl["hi"]), pl["step"]) if pl is not None else ("level", sym.const_value(pe))
+        groups.setdefault(gkey, []).append((sym.subst(q["val"], ren), (dict(jl, lo=R(jl["lo"]), hi=R(jl["hi"])), je, 1), d))
+    general = [g for g in groups if g[0] == "loop"]
+    if not general:
+        raise LookupError("no digit statement runs over the levels")
+    gmaps = {m for g in general for m, _, _ in groups[g]}
+    if len(gmaps) != 1:
+        raise LookupError("the digit statements compute different maps: %s" % sorted(sym.show(m)[:80] for m in gmaps)[:2])
+    gmap = next(iter(gmaps))
+    for g in groups:
+        if g[0] == "level":
+            for m, _, d in groups[g]:
+                if m != sym.subst(gmap, {Pv: I(g[1])}):
+                    raise LookupError("the statement for level %d at line %s computes %s, the general statement gives %s at that level" % (
+                        g[1], d["line"], sym.show(m)[:80], sym.show(sym.subst(gmap, {Pv: I(g[1])}))[:80]))
+    for g, members in groups.items():
+        status, detail = coverage.cover_1d([t for _, t, _ in members], N)
+        if status == "unknown":
+            raise LookupError(detail)
+        if status == "refuted":
+            return None, "refuted", "level group %s: %s" % (g[1] if g[0] == "level" else "[%s, %s)" % (sym.show(g[1]), sym.show(g[3])), detail)
+    d0 = groups[general[0]][0][2]
+    pl0 = next(lp for lp in d0["loops"] if "var" in lp and sym.contains(d0["lv"][1][1][2], lp["var"]))
+    if len(groups) > 1 or L is not None:
+        if L is None:
+            raise LookupError("several level groups but the number of levels is not known")
+        pterms = []
+        for g in groups:
+            if g[0] == "loop":
+                u = sym.sym("p@%s" % len(pterms))
+                pterms.append(({"var": u, "lo": g[1], "cmp": g[2], "hi": g[3], "step": g[4], "l": 0}, u, 1))
+            else:
+                u = sym.sym("p@%s" % len(pterms))
+                pterms.append(({"var": u, "lo": I(g[1]), "cmp": "<", "hi": I(g[1] + 1), "step": I(1), "l": 0}, u, 1))
+        status, detail = coverage.cover_1d(pterms, L)
+        if status == "unknown":
+            raise LookupError(detail)
+        if status == "refuted":
+            return None, "refuted", "levels: %s (n = l)" % detail
+    one = {"loops": [dict(pl0, var=Pv, lo=ZERO, cmp="<", hi=L if L is not None else pl0["hi"], step=I(1)),
+                     {"var": J, "lo": ZERO, "cmp": "<", "hi": N, "step": I(1), "l": d0["line"], "name": "j"}],
+           "lv": sym.idx(sym.fld(sym.idx(d0["lv"][1][1][1], Pv), "coefs"), J), "val": gmap, "line": d0["line"], "via": d0["via"],
+           "statements": len(digits)}
+    return one, "proved", "%d statements in %d level group(s)" % (len(digits), len(groups))
 
 
 def run(chk):
@@ -155,15 +196,16 @@ def check_variant(chk, v):
     if not digits:
         chk.broken("%s: no digit statement found" % FN)
     try:
-        d, cov_status, cov_detail = unify_digits(digits, N, R)
+        d, cov_status, cov_detail = unify_digits(digits, N, R, L if len(digits) > 1 else None)
     except LookupError as e:
         chk.broken("%s: %s" % (FN, e))
-    via = d["via"]
     if cov_status == "refuted":
+        via = digits[0]["via"]
         chk.refuted("R5", "every coefficient position j in [0,N) of every digit p in [0,l) is computed from input coefficient j alone [%s path]" % via,
-                    where="%s:%s" % (f.file, d["line"]), detail="the %d digit statements do not visit every coefficient position exactly once: %s" % (
+                    where="%s:%s" % (f.file, digits[0]["line"]), detail="the %d digit statements do not visit every (level, position) exactly once: %s" % (
                         len(digits), cov_detail), variant=vn)
         return
+    via = d["via"]
     if len(d["loops"]) != 2:
         chk.broken("digit statement is not in a (p, j) nest")
     pl, jl = d["loops"]
